@@ -155,6 +155,10 @@ func WithProcessor(processor NodeProcessor) LoadOption {
 // File paths are mapped to kebab-case tag names using directory path and filename.
 func WithComponents() LoadOption {
 	return func(vue *Vue) {
+		// No filesystem (New() without WithFS): there are no components to register
+		if vue.templateFS == nil {
+			return
+		}
 		// Walk the components directory recursively
 		err := fs.WalkDir(vue.templateFS, "components", func(path string, d fs.DirEntry, err error) error {
 			if err != nil {
